@@ -42,7 +42,7 @@ FireP(t) == Fire(t) /\ Ev.d = tm[t].p
 Died == {t \in Timers : tm'[t].diedUnstarted /\ ~tm[t].diedUnstarted}
 DevStep == dev' = IF Died # {} THEN dev \cup {"IntervalDiesOnUnstarted"} ELSE dev
 TimerEv ==
-  \/ IsT("obs.create") /\ Create(X, Ev.kind, Ev.p) /\ Adv /\ ND
+  \/ IsT("obs.create") /\ CreateR(X, Ev.kind, Ev.p, Ev.rp) /\ Adv /\ ND
   \/ IntT("timer.start", Start) /\ DevStep
   \/ IsT("timer.fire") /\ FireP(X) /\ Adv /\ DevStep
   \/ IsT("obs.timer_done") /\ tm[X].pc = "done" /\ Same /\ Adv /\ ND
